@@ -84,6 +84,15 @@ impl<'a> Gen<'a> {
     match self.rng.below(15) {
       0 => format!("({} + {})", self.num(d - 1, vars), self.num(d - 1, vars)),
       1 => format!("({} - {})", self.num(d - 1, vars), self.num(d - 1, vars)),
+      // `**`: literal operands whose power is exact within 34 digits (the model computes exact powers only; an
+      // inexact one in the middle of an expression could not be told from a value)
+      2 if self.rng.chance(1, 4) => {
+        if self.rng.chance(1, 3) {
+          format!("({} ** ({}))", *self.rng.pick(&["2", "0.5", "10", "(-2)", "4", "0.25", "0"]), self.rng.range(-3, 0))
+        } else {
+          format!("({} ** {})", *self.rng.pick(&["2", "3", "0.5", "1.5", "10", "(-2)", "4.75", "0", "(-0.3)", "12"]), *self.rng.pick(&["0", "1", "2", "3", "4", "2.0", "3.00"]))
+        }
+      }
       2 => format!("({} * {})", self.num(d - 1, vars), self.num(d - 1, vars)),
       3 => format!("(-{})", self.num(d - 1, vars)),
       4 => format!("(if {} then {} else {})", self.boolean(d - 1, vars), self.num(d - 1, vars), self.num(d - 1, vars)),
@@ -1047,6 +1056,161 @@ fn judge_written_out_with(rep: &mut Report, model: &mut Model, family: &str, row
   }
 }
 
+/// The exact value of `c·10^-scale ** n` for an integer `n`, by integer arithmetic: `Some(None)` = null
+/// (`0 ** 0`, `0 ** -n`), `None` = not exact within 34 digits (not judged).
+fn exact_pow(c: i128, scale: i32, n: i32) -> Option<Option<(i128, i32)>> {
+  if c == 0 {
+    return Some(if n > 0 { Some((0, 0)) } else { None });
+  }
+  if n == 0 {
+    return Some(Some((1, 0)));
+  }
+  let k = n.unsigned_abs();
+  let p = c.unsigned_abs().checked_pow(k)?;
+  let limit: u128 = 10u128.pow(34);
+  let neg = c < 0 && k % 2 == 1;
+  let sign = |q: u128| if neg { -(q as i128) } else { q as i128 };
+  if n > 0 {
+    // strip trailing zeros so that the 34-digit test is about significant digits
+    let (mut q, mut sc) = (p, scale.checked_mul(k as i32)?);
+    while q % 10 == 0 {
+      q /= 10;
+      sc -= 1;
+    }
+    if q >= limit {
+      return None;
+    }
+    Some(Some((sign(q), sc)))
+  } else {
+    if p >= limit {
+      return None;
+    }
+    // 1 / p is a terminating decimal iff p divides a power of ten
+    let mut t = 0u32;
+    let mut ten = 1u128;
+    while ten % p != 0 {
+      ten = ten.checked_mul(10)?;
+      t += 1;
+    }
+    let q = ten / p;
+    if q >= limit {
+      return None;
+    }
+    // (c·10^-scale)^-k = q·10^-t · 10^(scale·k)
+    Some(Some((sign(q), t as i32 - scale.checked_mul(k as i32)?)))
+  }
+}
+
+/// `**` with exponents of integral value: the exact power, by integer arithmetic in this harness.
+fn pow_family(rep: &mut Report, model: &mut Model) {
+  use dmntk_feel_number::FeelNumber;
+  let ctxs = vec![FeelContext::default()];
+  let mut bases: Vec<(i128, i32)> = (-12..=12).map(|c| (c as i128, 0)).collect();
+  bases.extend([(5, 1), (15, 1), (25, 1), (1, 1), (-5, 1), (125, 2), (1, 3), (100, 0), (1000, 0), (20, 1), (75, 2), (-25, 2), (3, 1), (99, 0), (101, 0), (999999, 0), (16, 0), (625, 0), (2, 2)]);
+  let dec = |c: i128, sc: i32| -> String {
+    let a = c.unsigned_abs().to_string();
+    let t = if sc <= 0 {
+      format!("{}{}", a, "0".repeat((-sc) as usize))
+    } else if (sc as usize) < a.len() {
+      format!("{}.{}", &a[..a.len() - sc as usize], &a[a.len() - sc as usize..])
+    } else {
+      format!("0.{}{}", "0".repeat(sc as usize - a.len()), a)
+    };
+    if c < 0 { format!("-{}", t) } else { t }
+  };
+  let mut rows: Vec<(String, String, Case, Value)> = vec![];
+  let sig = "`**` with an exponent of integral value is the exact power (exact within 34 digits)".to_string();
+  for (c, sc) in bases.iter().copied() {
+    for n in -6..=20i32 {
+      let expected = match exact_pow(c, sc, n) {
+        Some(e) => e,
+        None => {
+          rep.hit("pow:not-judged(not exact within 34 digits)");
+          continue;
+        }
+      };
+      let base = format!("({})", dec(c, sc));
+      let exps: Vec<String> = match n.rem_euclid(3) {
+        0 => vec![format!("({})", n)],
+        1 => vec![format!("({}.0)", n)],
+        _ => vec![format!("({}.00)", n), format!("({})", n)],
+      };
+      for e in exps {
+        let pw = format!("{} ** {}", base, e);
+        let num = expected.map(|(q, s)| Value::Number(FeelNumber::new(q, s)));
+        let null = Value::Null(None);
+        let v = num.clone().unwrap_or(null.clone());
+        let list = |x: Value| Value::List(dmntk_feel::values::Values::new(vec![x]));
+        let mut texts: Vec<(String, Value)> = vec![(pw.clone(), v.clone()), (format!("for i in [1] return {}", pw), list(v.clone())), (format!("{{a: {}}}.a", pw), v.clone())];
+        if let Some((q, s)) = expected {
+          texts.push((format!("({}) + 0", pw), v.clone()));
+          texts.push((format!("[{}][item = {}]", dec(q, s), pw), v.clone()));
+          texts.push((format!("(function(x) x ** {})({})", e, base), v.clone()));
+        }
+        for (text, want) in texts {
+          match run_case(&text, &ctxs, 8) {
+            Some(case) => rows.push((sig.clone(), text.clone(), case, want)),
+            None => rep.disagree(Kind::ImplVsSpec, "pow", "a well-formed exponentiation is rejected by the parser", &text, "parse error", "a syntax tree"),
+          }
+          rep.hit("pow");
+        }
+      }
+    }
+  }
+  judge_written_out_with(rep, model, "pow", rows, &|_| true);
+}
+
+/// `build_filter` evaluates the filter expression once more in the enclosing scope (the index probe): the same
+/// filters with `item` / an entry name unbound outside and bound outside to a number, a boolean, a string.  Tie
+/// only (implementation = model, theorem `filter_does_not_bind_item_counterexample`); whether the dependence on
+/// the enclosing binding breaks the property is proposed finding F-C01-filter-index-probe, not judged here.
+fn filter_probe_family(rep: &mut Report, model: &mut Model) {
+  use dmntk_feel_number::FeelNumber;
+  let outer: Vec<(&str, Option<Value>)> = vec![
+    ("unbound", None),
+    ("2", Some(Value::Number(FeelNumber::new(2, 0)))),
+    ("-1", Some(Value::Number(FeelNumber::new(-1, 0)))),
+    ("true", Some(Value::Boolean(true))),
+    ("\"x\"", Some(Value::String("x".into()))),
+  ];
+  let texts = ["[true, false][item]", "[1, 2, 3][item > 1]", "[{a: true}, {a: false}][a]", "[{a: 2}, {a: 1}][a = 1]", "true[item]", "[[1, 2], [3]][item[1] = 3]"];
+  let names = ["item", "a"];
+  let mut rows = vec![];
+  let mut seen: std::collections::BTreeMap<String, BTreeSet<String>> = Default::default();
+  for text in texts {
+    for name in names {
+      for (label, v) in &outer {
+        let mut ctx = FeelContext::default();
+        if let Some(v) = v {
+          ctx.set_entry(&Name::from(name), v.clone());
+        }
+        if let Some(c) = run_case(text, &[ctx], 8) {
+          seen.entry(text.to_string()).or_default().insert(c.implementation.clone());
+          rows.push((format!("{} @ {} = {}", text, name, label), c));
+        }
+        rep.hit("filter-probe");
+      }
+    }
+  }
+  let reqs: Vec<String> = rows.iter().map(|(_, c)| c.request.clone()).collect();
+  let answers = model.ask_batch(&reqs);
+  for ((shown, c), both) in rows.iter().zip(answers.iter()) {
+    let ans = match Sexp::parse(both).as_ref().and_then(|x| x.as_list()) {
+      Some([m, ..]) => m.to_string(),
+      _ => both.clone(),
+    };
+    rep.case(&format!("filter-probe|{}", shown), true);
+    if ans != "(unsupported)" && c.implementation != ans {
+      rep.disagree(Kind::ImplVsModel, "filter-probe", "evaluation differs from model (filter-probe)", shown, &c.implementation, &ans);
+    }
+  }
+  for (text, vals) in seen {
+    if vals.len() > 1 {
+      rep.hit(&format!("filter-probe:value depends on the enclosing binding ({})", text));
+    }
+  }
+}
+
 fn bifshadow_family(cfg: &Cfg, rep: &mut Report, model: &mut Model) {
   let names: Vec<String> = Sexp::parse(&model.ask("(c01 bifnames)"))
     .and_then(|x| x.as_list().map(|l| l.iter().filter_map(sexp_string).collect()))
@@ -1857,6 +2021,8 @@ pub fn run_with(cfg: &Cfg, property: &str) -> Report {
     feelsem_family(&mut rep, &mut model);
     bifshadow_family(cfg, &mut rep, &mut model);
     partial_family(cfg, &mut rep, &mut model);
+    pow_family(&mut rep, &mut model);
+    filter_probe_family(&mut rep, &mut model);
     partial_positions_family(cfg, &mut rep, &mut model);
     folded::folded_family(cfg, &mut rep, &mut model);
     freenames_family(cfg, &mut rep, &mut model, &vars);
